@@ -170,7 +170,8 @@ def mse_value_loss(
     loss : float
         Value function loss.
     """
-    values = v(observations).squeeze()  # squeeze Nx1-D -> N-D
+    # Nx1-D -> N-D; squeeze() would also drop the sample axis for N == 1
+    values = v(observations).reshape(jnp.shape(v_target_values))
     chex.assert_equal_shape((values, v_target_values))
     return optax.l2_loss(predictions=values, targets=v_target_values).mean()
 
